@@ -1,7 +1,10 @@
 """C03 — heavy hitters never over-count and never report a key that was not added."""
 import hh_common
+import log_common as _L
 
-ALLOWED_AXIOMS = frozenset()
+# the two runner theorems mention HH.step, whose case-file literals are primitive 63-bit integers: Print Assumptions
+# lists those kernel primitives (no logical axiom) under 'Axioms:'
+ALLOWED_AXIOMS = frozenset(a for a in _L.PRIMITIVES if a.startswith("PrimInt63."))
 MANIFEST = dict(
     category="proof",
     text="Coq theorems over a branch-for-branch Gallina model of heavyhitters.py (_add, add, _add_ngram, _merge, _max_count, "
@@ -10,14 +13,18 @@ MANIFEST = dict(
          "hh_cell_sound (count of the stored key <= true multiplicity of that key; a stored key with positive count sits in its "
          "own column), C03_getitem (hh[k] <= truth of the first max_key_len bytes of k as a byte string), C03_query (every "
          "reported (key, n) has 0 < n <= truth), pad_len_inj (array+length determine the byte string), C03_refuted_prefix (the "
-         "unrepaired bytes-only matching rule violates the property: F1). Model tied to the code by running random and "
+         "unrepaired bytes-only matching rule violates the property: F1); C03_runner_registers_are_model_states / "
+         "C03_runner_observes_model_state (for every program, every register of the correspondence runner is, inside the array "
+         "bounds, eval of some history, and table code, hh[k] and query answers are those of that eval — so the correspondence "
+         "run speaks of the object the theorems are about). Model tied to the code by running random and "
          "enumerated programs on the real HeavyHitters and evaluating the model inside Coq on the same programs, comparing the "
          "complete state after every operation.",
     design_ref="DESIGN.md section 6, C03",
     note="Trusted: Coq kernel + vm_compute; the hand transcription HH.v (validated by the correspondence run, bucket map observed "
          "on a probe sketch, never computed); translator for hh_cap; Numba's uint32/uint8 store semantics. n_added_records are "
          "modelled as unbounded integers (2^64 wrap out of scope); keys shorter than 2^64 bytes. Theorems closed under the "
-         "global context (no axioms).",
+         "global context (no axioms); the two runner theorems mention the runner's primitive 63-bit integer literals, so "
+         "Print Assumptions lists the PrimInt63 kernel primitives for them (no logical axiom).",
     technique="Coq proof (cell invariant by induction over histories) + vm_compute correspondence against the Numba code")
 
 
